@@ -46,7 +46,8 @@ def fault_configs(tier):
         return [_cfg("shadowsocks", S22, "tcp", "native"), _cfg("shadowsocks", S22, "tls", False), _cfg("shadowsocks", S22, "ws", False),
                 _cfg("shadowsocks", SL, "tcp", "native"),
                 _cfg("vmess", "aes-128-gcm", "tcp", "stream"), _cfg("vmess", "aes-128-gcm", "tls", "stream"), _cfg("vmess", "aes-128-gcm", "ws", "stream"),
-                _cfg("trojan", None, "tls", "stream"), _cfg("trojan", None, "wss", "stream")]
+                _cfg("trojan", None, "tls", "stream"), _cfg("trojan", None, "wss", "stream"),
+                _cfg("vmess", "aes-128-gcm", "quic", "stream")]      # quic: part of the quick tier too (dimension audit)
     out = []
     for c in (S22, SL, "2022-blake3-chacha20-poly1305"):
         for t in T.TRANSPORTS:
@@ -445,13 +446,343 @@ def f_cli_fd_exhaustion(ctx):
             errs += 1
             if errs > 5:
                 break
+    # while no descriptor is left: datagrams of a NEW application (the client needs a new binding, i.e. a socket / a connection)
+    sent_udp = False
+    if ctx.cfg["udp"]:
+        with T.UdpTarget() as tgt:
+            u = socket.socket(socket.AF_INET, socket.SOCK_DGRAM)
+            for _ in range(2):
+                u.sendto(T.socks5_udp_datagram(tgt.addr, b"sent while the client has no descriptor left"), ctx.client_addr())
+                time.sleep(0.15)
+            u.close()
+            sent_udp = True
     time.sleep(1.0)
     fds_at_peak = ctx.dep.fd_count("client")
     for s in socks:
         s.close()
     time.sleep(1.0)
-    return {"did": "client runs with RLIMIT_NOFILE=40; %d local connections opened (accepts must fail), held 1 s, closed, 1 s pause" % len(socks),
+    return {"did": "client runs with RLIMIT_NOFILE=40; %d local connections opened (accepts must fail)%s, held 1 s, closed, 1 s pause" % (len(socks), "; 2 datagrams of a new application meanwhile" if sent_udp else ""),
             "connect_errors": errs, "client_fd_count_at_peak": fds_at_peak, "client_fd_count_after": ctx.dep.fd_count("client")}
+
+
+# ------------------------------------------------------------------------------------------------
+# faults added by the dimension audit (seeded/audit/aud-t2a.md)
+# ------------------------------------------------------------------------------------------------
+
+def _tls_to_server(ctx, timeout=3.0):
+    """a COMPLETE TLS handshake with the server's listener (certificate not verified) -> ssl socket"""
+    import ssl
+    c = ssl.SSLContext(ssl.PROTOCOL_TLS_CLIENT)
+    c.check_hostname = False
+    c.verify_mode = ssl.CERT_NONE
+    raw = _tcp(ctx.server_addr(), timeout)
+    return c.wrap_socket(raw, server_hostname="localhost")
+
+
+def _ws_upgrade(s, timeout=3.0):
+    """a complete WebSocket upgrade on an open (plain or TLS) connection -> reply head"""
+    import base64
+    import os as _os
+    key = base64.b64encode(_os.urandom(16)).decode()
+    s.sendall(("GET /ws HTTP/1.1\r\nHost: localhost\r\nUpgrade: websocket\r\nConnection: Upgrade\r\nSec-WebSocket-Key: %s\r\n"
+               "Sec-WebSocket-Version: 13\r\n\r\n" % key).encode())
+    return T._recv_some(s, 4096, timeout, until=b"\r\n\r\n")
+
+
+def f_srv_tls_then_silence(ctx):
+    s = _tls_to_server(ctx)
+    time.sleep(0.2)
+    c, problems = _during(ctx, [s], "a connection that completed the TLS handshake and then stalls")
+    st = _peer_state(s, 0.3)
+    s.close()
+    return {"did": "complete TLS handshake with the server, then silence; canary while it is held", "canary_during": c, "server_reaction": st, "problems": problems}
+
+
+def f_srv_tls_then_garbage(ctx):
+    s = _tls_to_server(ctx)
+    s.sendall(ctx.rand(100))
+    st = _peer_state(s, 0.4)
+    try:
+        s.close()
+    except OSError:
+        pass
+    return {"did": "complete TLS handshake, then 100 random bytes inside the TLS session", "server_reaction": st}
+
+
+def f_srv_ws_then_garbage(ctx):
+    s = _tls_to_server(ctx) if ctx.cfg["tcp_layer"] == "tls" else _tcp(ctx.server_addr())
+    head = _ws_upgrade(s)
+    # a masked binary frame carrying random bytes, then bytes that are no frame at all
+    payload = ctx.rand(60)
+    mask = ctx.rand(4)
+    frame = bytes([0x82, 0x80 | len(payload)]) + mask + bytes(b ^ mask[i % 4] for i, b in enumerate(payload))
+    try:
+        s.sendall(frame)
+        s.sendall(b"\xff\xff\xff\xff" + ctx.rand(40))
+    except OSError:
+        pass
+    st = _peer_state(s, 0.4)
+    try:
+        s.close()
+    except OSError:
+        pass
+    return {"did": "complete WebSocket upgrade%s, one binary frame of 60 random bytes, then 44 bytes that are no frame" % (" inside TLS" if ctx.cfg["tcp_layer"] == "tls" else ""),
+            "upgrade_reply": head[:40].decode("latin-1"), "server_reaction": st}
+
+
+def f_srv_ws_then_silence(ctx):
+    s = _tls_to_server(ctx) if ctx.cfg["tcp_layer"] == "tls" else _tcp(ctx.server_addr())
+    head = _ws_upgrade(s)
+    c, problems = _during(ctx, [s], "a connection that completed the WebSocket upgrade and then stalls")
+    try:
+        s.close()
+    except OSError:
+        pass
+    return {"did": "complete WebSocket upgrade, then silence; canary while it is held", "upgrade_reply": head[:40].decode("latin-1"), "canary_during": c, "problems": problems}
+
+
+def _flow_through_dead_link(ctx, label):
+    """an application flow started while the client cannot get through to the server -> what the application sees"""
+    with T.TcpTarget() as trap:
+        t0 = time.monotonic()
+        s, reply = T.socks5_connect(ctx.dep.client_port, T.LOOPBACK, trap.port, 1, timeout=ctx.deadline)
+        try:
+            s.sendall(b"hello through a link that is " + label.encode())
+        except OSError:
+            pass
+        return s, {"handshake_reply": reply.hex(), "trap": trap, "t0": t0}, trap.count()
+
+
+def f_cli_tcp_server_down(ctx):
+    """the client reaches the server through a forwarder; while nothing listens there (connection refused) an application opens
+    a flow: setting up its outbound fails.  Then the server is reachable again."""
+    port = ctx.tcpfwd.port
+    ctx.tcpfwd.close()
+    time.sleep(0.4)
+    s, reply = T.socks5_connect(ctx.dep.client_port, T.LOOPBACK, _refused_port(), 1, timeout=ctx.deadline)
+    try:
+        s.sendall(b"hello while the server is away")
+    except OSError:
+        pass
+    st = _peer_state(s, ctx.deadline)
+    s.close()
+    fwd = None
+    for _ in range(20):
+        try:
+            fwd = T.TcpForwarder(upstream=(T.LOOPBACK, ctx.dep.server_port), port=port)
+            break
+        except OSError:
+            time.sleep(0.1)
+    if fwd is None:
+        raise T.InfraError("could not listen again on the forwarder port %d" % port)
+    ctx.closers.append(fwd)
+    ctx.tcpfwd = fwd
+    return {"did": "server port unreachable (connection refused) while an application opened a TCP flow; then reachable again",
+            "handshake_reply": reply.hex(), "app_connection_while_the_server_is_away": st}
+
+
+def f_cli_server_stalls(ctx):
+    """the server accepts the client's next connection and then says nothing (a stalled TCP / TLS / WebSocket handshake as the
+    CLIENT sees it): the flow concerned hangs, every other flow must be served meanwhile"""
+    ctx.tcpfwd.blackhole_next(1)
+    with T.TcpTarget() as trap:
+        s, reply = T.socks5_connect(ctx.dep.client_port, T.LOOPBACK, trap.port, 1, timeout=ctx.deadline)
+        try:
+            s.sendall(b"hello into a server that stalls")
+        except OSError:
+            pass
+        end = time.monotonic() + ctx.deadline       # the canary must not start before the hop holds the application's outbound connection
+        while time.monotonic() < end and len(ctx.tcpfwd.held) < 1:
+            time.sleep(0.02)
+        time.sleep(0.2)
+        held = len(ctx.tcpfwd.held)
+        if held != 1:
+            ctx.tcpfwd.release_held(reset=True)
+            s.close()
+            return {"did": "nothing (the client opened no outbound connection for the application's flow within %.0f s)" % ctx.deadline,
+                    "problems": ["driver: the hop holds %d connections instead of the application's one" % held]}
+        c, problems = _during(ctx, [s], "an outbound connection of the client on which the server stalls")
+        st = _peer_state(s, 0.2)
+        dialled = trap.count()
+        ctx.tcpfwd.release_held(reset=True)
+        st2 = _peer_state(s, ctx.deadline)
+        s.close()
+    return {"did": "the client's next outbound connection is accepted and then ignored (server stalls); canary while it hangs; then it is reset",
+            "canary_during": c, "app_connection_during": st, "app_connection_after_the_reset": st2, "stalled_flow_reached_its_target": dialled, "problems": problems}
+
+
+def _client_outbound_addr(ctx, app_payload=b"locate-the-outbound-socket"):
+    """one exchange through the dual forwarder -> (UdpApp, UdpTarget, client's outbound address as the hop saw it)"""
+    fwd = ctx.udpfwd
+    tgt, app = T.UdpTarget(), T.UdpApp("inj")
+    ctx.closers.extend([tgt, app])
+    n0 = len(fwd.captured)
+    app.send(ctx.dep.client_port, tgt.addr, app_payload)
+    app.wait_count(1, ctx.deadline)
+    cap = fwd.captured[n0:]
+    return app, tgt, (cap[0][1] if cap else None)
+
+
+def f_cli_udp_garbage_from_server(ctx):
+    """undecodable datagrams arriving at the CLIENT's outbound socket from the server's address"""
+    app, tgt, caddr = _client_outbound_addr(ctx)
+    if caddr is None:
+        return {"did": "nothing", "problems": ["driver: nothing captured on the forwarder"]}
+    for n in (1, 15, 31, 100, 1000):
+        ctx.udpfwd.inject_to_client(ctx.rand(n), caddr)
+        time.sleep(0.02)
+    time.sleep(0.3)
+    strays = [p for _l, p, _t in list(app.received)[1:]]
+    app.send(ctx.dep.client_port, tgt.addr, b"after-the-garbage")
+    ok = app.wait_count(2 + len(strays), ctx.deadline) and app.received[-1][1] == b"after-the-garbage"
+    problems = []
+    if strays:
+        problems.append("undecodable datagrams from the server side were handed to the application (%d datagrams)" % len(strays))
+    return {"did": "5 random datagrams (1, 15, 31, 100, 1000 bytes) sent to the client's outbound UDP socket from the server's address",
+            "first_exchange_ok": app.count() >= 1, "same_application_continues": bool(ok), "problems": problems}
+
+
+def f_cli_udp_replay_reply(ctx):
+    """a genuine server->client datagram, captured on the hop, is delivered to the client a second and third time"""
+    fwd = ctx.udpfwd
+    app, tgt, caddr = _client_outbound_addr(ctx, b"reply-to-be-replayed")
+    reps = [r for r in fwd.replies if r[1] == caddr]
+    if caddr is None or not reps:
+        return {"did": "nothing", "problems": ["driver: no server->client datagram captured on the forwarder"]}
+    pkt = reps[-1][0]
+    n0 = app.count()
+    for _ in range(2):
+        fwd.inject_to_client(pkt, caddr)
+        time.sleep(0.05)
+    time.sleep(0.4)
+    dups = app.count() - n0
+    app.send(ctx.dep.client_port, tgt.addr, b"after-the-replayed-reply")
+    ok = app.wait_count(n0 + dups + 1, ctx.deadline) and app.received[-1][1] == b"after-the-replayed-reply"
+    problems = []
+    rp = (ctx.cfg["cipher"] or "").startswith("2022")
+    if rp and dups:
+        problems.append("a replayed server->client datagram was handed to the application again (%d times; 2022 ciphers number their packets)" % dups)
+    if rp and not ok:
+        problems.append("after a replayed (refused) server->client datagram the session does not go on: the application's next datagram is not echoed")
+    return {"did": "a captured server->client datagram re-sent twice to the client's outbound socket", "replayed_reply_delivered_again": dups,
+            "same_application_continues": bool(ok), "problems": problems}
+
+
+def f_cli_udp_target_port_closed(ctx):
+    u = socket.socket(socket.AF_INET, socket.SOCK_DGRAM)
+    u.bind((T.LOOPBACK, 0))
+    port = u.getsockname()[1]
+    u.close()
+    a = socket.socket(socket.AF_INET, socket.SOCK_DGRAM)
+    for _ in range(2):
+        a.sendto(T.socks5_udp_datagram((T.LOOPBACK, port), b"to a closed port"), ctx.client_addr())
+        time.sleep(0.1)
+    a.close()
+    return {"did": "2 well-formed SOCKS5-UDP datagrams for 127.0.0.1:%d where nothing listens (ICMP port unreachable at the server)" % port}
+
+
+def mk_cli_udp_raw(raw_fn, what):
+    def f(ctx):
+        with T.UdpTarget() as tgt:
+            u = socket.socket(socket.AF_INET, socket.SOCK_DGRAM)
+            u.sendto(raw_fn(tgt), ctx.client_addr())
+            u.close()
+            time.sleep(0.2)
+            return {"did": what, "target_received": tgt.count()}
+    return f
+
+
+def _flow_reset(ctx, who):
+    with T.TcpTarget() as tgt:
+        steps = [("app_send", ctx.rand(3000)), ("target_send", ctx.rand(3000)), ("drain",), ("app_send", ctx.rand(200000)), ("target_send", ctx.rand(200000)),
+                 ("app_reset",) if who == "app" else ("target_reset",)]
+        o = T.run_tcp_flow(ctx.dep, tgt, "socks5_ipv4", steps, deadline=ctx.deadline)
+    return {"did": "a flow with 200 kB in flight each way; the %s resets its connection" % ("application" if who == "app" else "target"),
+            "app_end": o["app_end"], "target_end": o["target_end"], "errors": o["errors"][:2]}
+
+
+def f_cli_app_resets_midflow(ctx):
+    return _flow_reset(ctx, "app")
+
+
+def f_srv_target_resets_midflow(ctx):
+    return _flow_reset(ctx, "target")
+
+
+def mk_restart(which):
+    def f(ctx):
+        dep = ctx.dep
+        old = None
+        if ctx.cfg["udp"] and which == "server":
+            # an application that was talking before the restart goes on talking afterwards (recorded, see F-aud-3)
+            tgt, app = T.UdpTarget(), T.UdpApp("old")
+            ctx.closers.extend([tgt, app])
+            for i in range(4):
+                app.send(dep.client_port, tgt.addr, b"before-the-restart-%d" % i)
+                app.wait_count(i + 1, ctx.deadline)
+            old = (app, tgt, app.count())
+        r = dep.restart(which, down=0.3)
+        problems = []
+        if not r["listening_again"]:
+            problems.append("the %s does not listen again after its restart: %s" % (which, r["detail"]))
+        o = {"did": "the %s process is stopped (SIGTERM) and started again 0.3 s later with the same configuration; the %s keeps running" % (which, "client" if which == "server" else "server"),
+             "restart": r, "problems": problems}
+        if old:
+            app, tgt, n0 = old
+            t0 = tgt.count()
+            for i in range(6):
+                app.send(dep.client_port, tgt.addr, b"after-the-restart-%d" % i)
+                app.wait_count(n0 + i + 1, 0.5)
+            o["application_that_was_talking_before"] = {"replies_before": n0, "datagrams_after": 6, "reached_the_target": tgt.count() - t0, "replies_after": app.count() - n0,
+                                                         "note": "recorded, not required here (a restart of the server is not a fault of the C08 catalogue); lost replies with a 2022 cipher are F-aud-3"}
+        return o
+    return f
+
+
+def f_srv_wrong_credential_client(ctx):
+    """a second client PROCESS whose credential differs from the server's: nothing of it may be relayed, and the genuine
+    users go on being served"""
+    import base64
+    import hashlib
+    p, c = ctx.cfg["protocol"], ctx.cfg["cipher"]
+    if p == "shadowsocks" and (c or "").startswith("2022"):
+        n = T.SS_2022_KEYLEN[c]
+        bad = base64.b64encode(hashlib.sha256(b"a stranger's key").digest()[:n]).decode()
+    elif p == "vmess":
+        bad = "0e0e0e0e-1111-4222-8333-444444444444"
+    else:
+        bad = "not-the-password"
+    problems = []
+    o = {"did": "a second client process configured with a credential the server does not know opens a TCP flow%s" % (" and sends a datagram" if ctx.cfg["udp"] else "")}
+    try:
+        with T.ExtraClient(ctx.dep, client_server={"password": bad}) as c2, T.TcpTarget() as trap:
+            s, reply = T.socks5_connect(c2.client_port, T.LOOPBACK, trap.port, 1, timeout=ctx.deadline)
+            try:
+                s.sendall(b"let me through")
+            except OSError:
+                pass
+            o["app_connection"] = _peer_state(s, 1.0)
+            s.close()
+            if ctx.cfg["udp"]:
+                with T.UdpTarget() as utrap:
+                    u = socket.socket(socket.AF_INET, socket.SOCK_DGRAM)
+                    for _ in range(2):
+                        u.sendto(T.socks5_udp_datagram(utrap.addr, b"let me through"), (T.LOOPBACK, c2.client_port))
+                        time.sleep(0.2)
+                    u.close()
+                    time.sleep(0.3)
+                    o["datagrams_relayed_for_the_stranger"] = utrap.count()
+                    if utrap.count():
+                        problems.append("a datagram of a client WITHOUT the configured credential was forwarded to its target")
+            time.sleep(0.2)
+            o["tcp_flows_relayed_for_the_stranger"] = trap.count()
+            if trap.count():
+                problems.append("the server dialled a target for a client WITHOUT the configured credential")
+            o["stranger_client_alive"] = c2.alive()
+    except T.DeploymentError as e:
+        o["stranger_client"] = "did not start: %s" % (getattr(e, "ready_detail", e),)
+    o["problems"] = problems
+    return o
 
 
 # name -> (function, applies(cfg), needs)   needs: None | "tcpfwd" | "dualfwd"
@@ -487,7 +818,37 @@ def catalogue():
     c["cli_udp_unresolvable"] = (f_cli_udp_unresolvable, cu, None)
     # outbound set-up failure: only where the datagrams travel in a TCP-based tunnel
     c["cli_udp_server_down"] = (f_cli_udp_server_down, lambda cfg: cfg["udp"] and not cfg["native_udp"] and cfg["transport"] != "quic", "tcpfwd")
+    # ---- added by the dimension audit
+    tls = lambda cfg: cfg["server_tcp"] and cfg["tcp_layer"] == "tls"                       # noqa: E731
+    ws = lambda cfg: cfg["server_tcp"] and cfg["transport"] in ("ws", "wss")                # noqa: E731
+    fwd = lambda cfg: "dualfwd" if cfg["native_udp"] else "tcpfwd"                          # noqa: E731
+    tcp_link = lambda cfg: cfg["server_tcp"] and cfg["transport"] != "quic"                 # noqa: E731
+    c["srv_tls_then_silence"] = (f_srv_tls_then_silence, tls, None)
+    c["srv_tls_then_garbage"] = (f_srv_tls_then_garbage, tls, None)
+    c["srv_ws_then_garbage"] = (f_srv_ws_then_garbage, ws, None)
+    c["srv_ws_then_silence"] = (f_srv_ws_then_silence, ws, None)
+    c["srv_target_resets_midflow"] = (f_srv_target_resets_midflow, every, None)
+    c["srv_wrong_credential_client"] = (f_srv_wrong_credential_client, every, None)
+    c["srv_restart"] = (mk_restart("server"), every, None)
+    c["cli_restart"] = (mk_restart("client"), every, None)
+    c["cli_app_resets_midflow"] = (f_cli_app_resets_midflow, every, None)
+    c["cli_tcp_server_down"] = (f_cli_tcp_server_down, tcp_link, fwd)
+    c["cli_server_stalls"] = (f_cli_server_stalls, tcp_link, fwd)
+    c["cli_udp_garbage_from_server"] = (f_cli_udp_garbage_from_server, lambda cfg: cfg["native_udp"], "dualfwd")
+    c["cli_udp_replay_reply"] = (f_cli_udp_replay_reply, lambda cfg: cfg["native_udp"], "dualfwd")
+    c["cli_udp_target_port_closed"] = (f_cli_udp_target_port_closed, cu, None)
+    c["cli_udp_bad_atyp"] = (mk_cli_udp_raw(lambda tgt: b"\x00\x00\x00\x09" + socket.inet_aton(T.LOOPBACK) + struct.pack(">H", tgt.port) + b"unknown address type",
+                                            "a SOCKS5-UDP datagram with address type 9"), cu, None)
+    c["cli_udp_rsv_nonzero"] = (mk_cli_udp_raw(lambda tgt: b"\x12\x34" + T.socks5_udp_datagram(tgt.addr, b"reserved bytes are not zero")[2:],
+                                               "a SOCKS5-UDP datagram whose reserved bytes are 12 34 (whether it is relayed is recorded, not required)"), cu, None)
+    c["cli_udp_domain_overrun"] = (mk_cli_udp_raw(lambda tgt: b"\x00\x00\x00\x03\xf0" + b"short.example" + struct.pack(">H", tgt.port),
+                                                  "a SOCKS5-UDP datagram whose domain length (240) exceeds the datagram"), cu, None)
     return c
+
+
+# small local-datagram faults that the quick tier runs as ONE scenario per configuration (each is in the catalogue on its own
+# for the thorough tier and for sequences)
+BUNDLE_UDP = ["cli_udp_bad_atyp", "cli_udp_rsv_nonzero", "cli_udp_domain_overrun", "cli_udp_target_port_closed"]
 
 
 def _needs(entry, cfg):
@@ -576,13 +937,24 @@ def suite_faults(tier, seed, only):
     rng = random.Random(seed)
     for cfg in fault_configs(tier):
         applicable = [f for f, e in cat.items() if e[1](cfg)]
-        for f in applicable:
+        single = [f for f in applicable if not (tier == "quick" and f in BUNDLE_UDP)]
+        if tier == "quick" and cfg["transport"] == "quic":
+            # the quic configuration of the quick tier: what differs over quic (the server's UDP port, the client's outbound set-up,
+            # restarts, strangers) - the local faults are transport independent and run on the nine other configurations
+            single = [f for f in single if f.startswith("srv_") or f in ("cli_stalled_silent", "cli_socks5_unresolvable", "cli_socks5_refused", "cli_udp_unresolvable",
+                                                                          "cli_restart", "cli_app_resets_midflow", "cli_udp_len_3")]
+        for f in single:
             name = "faults/%s/%s" % (cfg["name"], f)
             if T.wanted(name, only):
                 jobs.append(lambda name=name, cfg=cfg, f=f: run_scenario(name, cfg, [f], seed))
-        if tier == "thorough":
-            pool = [f for f in applicable if _needs(cat[f], cfg) is None and f != "srv_silent_3s"]
-            for i in range(6):
+        if tier == "quick" and cfg["udp"]:
+            name = "faults/%s/cli_udp_malformed_bundle" % cfg["name"]
+            if T.wanted(name, only):
+                jobs.append(lambda name=name, cfg=cfg: run_scenario(name, cfg, list(BUNDLE_UDP), seed))
+        if True:
+            # sequences of faults: six per configuration in the thorough tier, two in the quick tier
+            pool = [f for f in applicable if _needs(cat[f], cfg) is None and f not in ("srv_silent_3s", "srv_restart", "cli_restart")]
+            for i in range(6 if tier == "thorough" else 2):
                 seq = [rng.choice(pool) for _ in range(rng.randint(2, 6))]
                 name = "faults/%s/sequence-%d" % (cfg["name"], i)
                 if T.wanted(name, only):
